@@ -109,7 +109,7 @@ func c07DrawTS(rt *rapid.T, k int, m int64) (ts []int64, evenOddSum bool) {
 	if got := c07RefMedian(sorted); got != m {
 		panic(fmt.Sprintf("harness bug: drew %v for median %d, reference says %d", sorted, m, got))
 	}
-	perm := rapid.Permutation(c08Range(k)).Draw(rt, "tsOrder")
+	perm := rapid.Permutation(hbRange(k)).Draw(rt, "tsOrder")
 	ts = make([]int64, k)
 	for i, p := range perm {
 		ts[i] = sorted[p]
@@ -120,7 +120,7 @@ func c07DrawTS(rt *rapid.T, k int, m int64) (ts []int64, evenOddSum bool) {
 func c07DrawSigners(rt *rapid.T, nv int) []int {
 	min := nv*2/3 + 1
 	k := rapid.IntRange(min, nv).Draw(rt, "nSigners")
-	perm := rapid.Permutation(c08Range(nv)).Draw(rt, "signerOrder")
+	perm := rapid.Permutation(hbRange(nv)).Draw(rt, "signerOrder")
 	return perm[:k]
 }
 
@@ -353,7 +353,7 @@ func TestC07(t *testing.T) {
 					if cvl == nil || len(cvl.Items) != len(inTS) {
 						ev.Inconclusive("C07: cannot re-read proposed votes")
 					}
-					perm := rapid.Permutation(c08Range(len(cvl.Items))).Draw(rt, "itemOrder")
+					perm := rapid.Permutation(hbRange(len(cvl.Items))).Draw(rt, "itemOrder")
 					n := &consensus.CommitVoteList{}
 					n.Round, n.BlockPartSetIDAndAppData, n.NTSDProves = cvl.Round, cvl.BlockPartSetIDAndAppData, cvl.NTSDProves
 					nts := make([]int64, len(perm))
